@@ -28,6 +28,8 @@ func (d dstSpec) class(need int) string {
 		return "cap=exact"
 	case d.spare < need:
 		return "cap=spare-too-small"
+	case d.spare == need:
+		return "cap=spare-exactly-needed"
 	default:
 		return "cap=spare-enough"
 	}
@@ -38,13 +40,16 @@ func genDst(t *rapid.T, label string, need int) dstSpec {
 	if rapid.IntRange(0, 2).Draw(t, label+".has") > 0 {
 		d.prefix = gen.RandBytes(t, label+".prefix", rapid.IntRange(0, 40).Draw(t, label+".len"))
 	}
-	switch rapid.IntRange(0, 2).Draw(t, label+".cap") {
+	switch rapid.IntRange(0, 3).Draw(t, label+".cap") {
 	case 0:
 		d.spare = 0
 	case 1:
 		if need > 0 {
 			d.spare = rapid.IntRange(0, need-1).Draw(t, label+".spare")
 		}
+	case 2:
+		// every threshold of the append logic: needed-1, needed, needed+1, +15, +16, +17, large
+		d.spare = max(0, need+rapid.SampledFrom([]int{-1, 0, 0, 1, 15, 16, 17, 300}).Draw(t, label+".threshold"))
 	default:
 		d.spare = need + rapid.IntRange(0, 40).Draw(t, label+".extra")
 	}
@@ -369,8 +374,9 @@ func TestC01(t *testing.T) {
 			seed := uint64(n)*131 + uint64(an)
 			key, nonce, pt, ad := pat(seed, 32), pat(seed+1, nonceLen), pat(seed+2, n), pat(seed+3, an)
 			want := refaead.Seal(key, nonce, pt, ad)
-			sd := dstSpec{prefix: pat(seed+4, n%3), spare: []int{0, n + 16 + 5, 7}[n%3], off: n % 32}
-			od := dstSpec{prefix: pat(seed+5, (n+1)%3), spare: []int{n + 3, 0, n / 2}[n%3], off: (n * 3) % 32}
+			sneed, oneed := n+16, n
+			sd := dstSpec{prefix: pat(seed+4, n%3), spare: max(0, []int{0, sneed + 5, 7, sneed, sneed - 1, sneed + 1, sneed + 16, sneed + 15}[(n+ai)%8]), off: n % 32}
+			od := dstSpec{prefix: pat(seed+5, (n+1)%3), spare: max(0, []int{oneed + 3, 0, oneed / 2, oneed, oneed + 1, oneed - 1, oneed + 17, oneed + 16}[(n+ai+3)%8]), off: (n * 3) % 32}
 			for _, p := range paths {
 				restore := p.use()
 				err := c01One(key, nonce, pt, ad, want, sd, od, (n*5)%32)
